@@ -25,7 +25,7 @@ import vlib
 from vlib import log
 
 PID = "C18"
-KEEP = ("act", "hpc", "lpc", "cpc", "rpc", "kpc", "delivered", "upClosed", "clientGone", "inDict", "subEnd", "connEnd")
+KEEP = ("act", "hpc", "lpc", "cpc", "rpc", "kpc", "delivered", "upClosed", "clientGone", "inDict", "subEnd", "connEnd", "closeReq", "qClosed")
 
 
 def case_of(g, path, cid):
@@ -39,6 +39,42 @@ def case_of(g, path, cid):
     ended = f["subEnd"] or f["connEnd"]
     allgone = f["lpc"] in ("done", "none") and f["rpc"] == "done" and f["kpc"] == "done" and f["cpc"] in ("none", "done") and f["upClosed"]
     return {"id": cid, "init": list(g.state[path[0]]["act"]), "steps": steps, "quiescent": True, "ended": ended, "allGone": allgone}
+
+
+def racy_cases(g, rng, limit):
+    """Listen in its select with closeCh closed AND the reader ready to send: Go picks a case at random.
+    A shortest behaviour to every such state, followed by one step that lets both goroutines go."""
+    import collections
+    parent = {i: None for i in g.inits}
+    dq = collections.deque(g.inits)
+    while dq:
+        x = dq.popleft()
+        for y in g.succ.get(x, []):
+            if y not in parent:
+                parent[y] = x
+                dq.append(y)
+    seen, out = set(), []
+    nodes = sorted(n for n in parent if g.state[n]["lpc"] == "select" and g.state[n]["closeReq"] and g.state[n]["rpc"] in ("send", "sendnil") and not g.state[n]["qClosed"])
+    rng.shuffle(nodes)
+    for n in nodes:
+        st = g.state[n]
+        key = tuple(str(st[k]) for k in KEEP if k != "act") + (str(g.state[[p for p in [n]][0]]["act"]),)
+        if key in seen:
+            continue
+        seen.add(key)
+        path = []
+        x = n
+        while x is not None:
+            path.append(x)
+            x = parent[x]
+        path.reverse()
+        c = case_of(g, path, "race%d" % len(out))
+        c["steps"].append({"act": ["Race", st["rpc"]], "post": c["steps"][-1]["post"] if c["steps"] else {}})
+        c["quiescent"], c["ended"] = False, True
+        out.append(c)
+        if len(out) >= limit:
+            break
+    return out
 
 
 def history(c):
@@ -69,8 +105,10 @@ def gen_cases(sc, tier, rng):
             c = case_of(g, p, "sf%d" % len(cases))
             if json.dumps(history(c)) not in have:
                 cases.append(c)
+    racy = racy_cases(g, rng, 100000 if tier == "thorough" else 400)
+    cases += racy
     os.remove(dot)
-    return cases, dict(states=rg.distinct, transitions=rg.generated, behaviours=total, edges=edges, edge_cover=len(cover),
+    return cases, dict(racy_select_cases=len(racy), states=rg.distinct, transitions=rg.generated, behaviours=total, edges=edges, edge_cover=len(cover),
                        replayed=len(cases), edge_cover_complete=(tier == "thorough"))
 
 
@@ -188,9 +226,7 @@ def run(sc, tier, replay_file):
 
     # ---------------------------------------------------------------- frames
     fout = sc.path("frames.ndjson")
-    cmd = [binary, "frames", "-out", fout]
-    if thorough:
-        cmd.append("-heartbeat")
+    cmd = [binary, "frames", "-out", fout, "-heartbeat"]   # the heartbeat's period is a 4 s constant: this costs 4 s
     r = vlib.run(cmd, timeout=120)
     if r.returncode != 0:
         if vlib.panic_in_code_under_test(r.stderr):
@@ -301,6 +337,5 @@ def run(sc, tier, replay_file):
         "the client's abrupt disconnect is a TCP reset: the gateway's reads and writes fail from then on",
         "the select between a ready upstream event and a closed closeCh cannot be forced; the model shows the states reached are the same",
         "a goroutine counts as left behind if it still runs repository code 400 ms after every gate was opened",
-        "heartbeat as second writer only in the thorough tier (its period is a 4 s constant)",
     ])
     return rc
